@@ -15,3 +15,18 @@ func init() {
 		},
 	})
 }
+
+func init() {
+	register(&Property{
+		ID:    "XALIAS",
+		Rules: []string{"ALIAS", "ESCAPE"},
+		Run: func(c *Ctx) {
+			ruleALIAS(c, nil)
+			ruleESCAPE(c, nil)
+		},
+	})
+}
+
+func init() {
+	register(&Property{ID: "XSET", Run: func(c *Ctx) { ruleSETALG(c) }})
+}
